@@ -622,6 +622,7 @@ func propC16(r *Run) {
 	}
 	r.exhaustive = true
 	seed := r.rng.intn(1 << 20)
+	c16More(r)
 
 	// 1. closed-form arithmetic, every length (plus a few huge and negative arguments: pure int code)
 	for n := 0; n <= nArith; n++ {
